@@ -492,8 +492,13 @@ class Interp:
                 if r.kind == "exc":
                     out.append(r)
                 else:
-                    t = d.truth(r.value)
-                    out.append(val({"T": FALSE, "F": TRUE}.get(t, ("bool",)), r.state))
+                    asked = self._object_truth(r.value, r.state, fr)
+                    for a in (asked if asked is not None else [r]):
+                        if a.kind == "exc":
+                            out.append(a)
+                            continue
+                        t = d.truth(a.value)
+                        out.append(val({"T": FALSE, "F": TRUE}.get(t, ("bool",)), a.state))
             return out
         if isinstance(e, ast.UnaryOp) and isinstance(e.op, (ast.USub, ast.UAdd)):
             out = []
@@ -974,6 +979,19 @@ class Interp:
             if r.kind == "exc":
                 out.append(("exc", r))
                 continue
+            asked = self._object_truth(r.value, r.state, fr)
+            if asked is not None:
+                # an object whose class says when it is true (__bool__ / __len__): that method runs
+                for a in asked:
+                    if a.kind == "exc":
+                        out.append(("exc", a))
+                        continue
+                    t = self.domain.truth(a.value)
+                    if t in ("T", "TF"):
+                        out.append((True, a.state))
+                    if t in ("F", "TF"):
+                        out.append((False, a.state))
+                continue
             t = self.domain.truth(r.value)
             if t in ("T", "TF"):
                 s2 = self.refine(test, r.state, fr, True)
@@ -984,6 +1002,10 @@ class Interp:
                 if s2 is not None:
                     out.append((False, s2))
         return out
+
+    def _object_truth(self, value, st, fr):
+        hook = getattr(self.domain, "object_truth", None)
+        return hook(self, value, st, fr) if hook is not None else None
 
     def _key_of(self, e, fr, st=None, follow=True):
         key = self._slot_of(e, fr, st)
